@@ -868,6 +868,26 @@ func httpStoreReplay(task engine.SeqTask) (res engine.SeqResult) {
 		got   map[string]int
 		want  map[string]bool
 	}
+	pit := false
+	for _, ob := range p.Obs {
+		if ob == "c06pit" {
+			pit = true
+		}
+	}
+	type pitInstant struct {
+		t     int64
+		label string
+		q     int
+		truth map[string]int
+	}
+	type pitQ struct {
+		pred string
+		inv  bool
+	}
+	pitQueries := []pitQ{{"*", false}, {h.KeyURI("p"), true}}
+	pitStarts := []string{h.URI("e1"), h.URI("e2"), h.URI("e3")}
+	pitPrev := map[int]map[string]int{0: {}, 1: {}}
+	var pitInst []pitInstant
 	for i, raw := range task.Hist {
 		var op server.VOp
 		if err := json.Unmarshal(raw, &op); err != nil {
@@ -960,8 +980,92 @@ func httpStoreReplay(task engine.SeqTask) (res engine.SeqResult) {
 			}
 			continue
 		}
+		if pit {
+			// point in time through POST /query: the unpaged current-state answer right after every write is the truth
+			// for the instants exactly at and 1 ns after its commit, the answer before it for the instant 1 ns before
+			t, err := h.ApplyWriteT(op)
+			if err != nil {
+				o.fail("C01:write-rejected", "valid write rejected: "+err.Error())
+				continue
+			}
+			for qi, q := range pitQueries {
+				got, _, ok := o.queryPage(map[string]interface{}{"startingEntities": pitStarts, "predicate": q.pred, "inverse": q.inv, "limit": 0})
+				if !ok {
+					res.HarnessEr = "current-state POST /query failed"
+					return
+				}
+				if t != 0 {
+					pitInst = append(pitInst, pitInstant{t - 1, fmt.Sprintf("just-before-commit-%d", i+1), qi, pitPrev[qi]},
+						pitInstant{t, fmt.Sprintf("exactly-at-commit-%d", i+1), qi, got}, pitInstant{t + 1, fmt.Sprintf("just-after-commit-%d", i+1), qi, got})
+				}
+				pitPrev[qi] = got
+			}
+			continue
+		}
 		if err := h.ApplyWrite(op); err != nil {
 			o.fail("C01:write-rejected", "valid write rejected: "+err.Error())
+		}
+	}
+	// every recorded instant again, as a client would that kept a continuation token pinned to it: the tokens are the
+	// handler's own encoding (base64 of the JSON of a RelatedFrom) for the instant, one per starting entity
+	for _, in := range pitInst {
+		q := pitQueries[in.q]
+		pred := q.pred
+		rfs, err := w.jw.W.Store.ToRelatedFrom(pitStarts, pred, q.inv, nil, in.t)
+		if err != nil {
+			continue // a start entity that did not exist yet
+		}
+		var toks []string
+		for _, rf := range rfs {
+			if rf != nil {
+				b, _ := json.Marshal(rf)
+				toks = append(toks, base64.StdEncoding.EncodeToString(b))
+			}
+		}
+		if len(toks) == 0 && len(in.truth) == 0 {
+			continue
+		}
+		for _, limit := range []int{0, 1} {
+			o.n++
+			got := map[string]int{}
+			conts := toks
+			failed := false
+			for n := 0; len(conts) > 0 && n < 60; n++ {
+				g, c2, ok := o.queryPage(map[string]interface{}{"continuations": conts, "limit": limit})
+				if !ok {
+					failed = true
+					break
+				}
+				for k, c := range g {
+					got[k] += c
+				}
+				conts = c2
+				if limit == 0 {
+					break
+				}
+			}
+			same := !failed && len(got) == len(in.truth)
+			for k, c := range got {
+				if in.truth[k] != 1 || c != 1 {
+					same = false
+				}
+			}
+			if !same {
+				var gl, wl []string
+				for k, c := range got {
+					gl = append(gl, fmt.Sprintf("%s x%d", k, c))
+				}
+				for k := range in.truth {
+					wl = append(wl, k)
+				}
+				sort.Strings(gl)
+				sort.Strings(wl)
+				dir := "out"
+				if q.inv {
+					dir = "in"
+				}
+				o.fail(fmt.Sprintf("C06:http:pinned-query:%s:%s/%s:limit=%d", strings.SplitN(in.label, "-commit", 2)[0], q.pred, dir, limit), fmt.Sprintf("POST /query continued from tokens pinned to the instant %s (%s %s, limit %d) returns %v; the current-state answer at that instant was %v", in.label, q.pred, dir, limit, gl, wl))
+			}
 		}
 	}
 	for _, ob := range p.Obs {
